@@ -63,6 +63,12 @@ CONTROLS = ['R-a|<verif_controls::DoubleEdge<O, Item> as Observer>::next', 'R-d|
 
 
 def check(cx):
+    _env_wrapped = True
+    from . import c03
+    return _check_own(cx) + c03.envelopes(cx, ID)
+
+
+def _check_own(cx):
     return ra(cx) + ([] if cx.control else rb(cx) + rc(cx) + rg(cx)) + rd(cx) + re_(cx) + rf(cx)
 
 
